@@ -64,15 +64,21 @@ def gen_cases(tier, seed0):
     for netname, reactions in NETWORKS:
         for spname, space in spaces(tier):
             n = ratelaw.ncells(space)
-            for variant in ("plain", "chemostat"):
-                if variant == "chemostat" and not (netname in ("A+B<->C", "cycle", "none") and spname.endswith(("rrr", "ppp", "cycle5"))):
+            for variant in ("plain", "chemostat", "chemostat2"):
+                if variant != "plain" and not (netname in ("A+B<->C", "cycle", "none", "A<->B") and
+                                               (spname.endswith(("rrr", "ppp")) or spname.startswith("graph"))):
                     continue
                 state = [float(11 + (7 * q) % 23) for q in range(3 * n)]
                 chem = None
                 if variant == "chemostat":
                     chem = [0] * (3 * n)
-                    chem[2 * n + 0] = 1          # species C chemostated in cell 0 only
+                    chem[2 * n + 0] = 1          # species C chemostated in the first and the last cell
                     chem[2 * n + n - 1] = 1
+                elif variant == "chemostat2":
+                    chem = [0] * (3 * n)
+                    for i in range(n):           # species C chemostated in every odd cell and in cell 0
+                        if i % 2 == 1 or i == 0:
+                            chem[2 * n + i] = 1
                 spec = {"species": [{"label": LABELS[s], "D": DIFF[s]} for s in range(3)], "reactions": reactions,
                         "envs": ["c", "w"], "space": space, "state": state}
                 if chem:
